@@ -106,6 +106,7 @@ fn run_search(v: &Val) -> Val {
     let default_cap = v.fld(12).us();
     let max_matches = v.fld(13).opt().map(|x| x.n() as u64);
     let path: Option<Vec<u8>> = v.fld(14).opt().map(|x| x.bytes());
+    let pterm: Option<u8> = if v.fld(16).b() { Some(0) } else { None };
 
     let opts = crate::rgcfg::RgOpts { fixed: true, text: v.fld(0).us() == 0, ..Default::default() };
     let matcher = match crate::rgcfg::matcher(&needles, &opts) {
@@ -136,7 +137,7 @@ fn run_search(v: &Val) -> Val {
 
     // 2. standard printer
     let mut sp = StandardBuilder::new();
-    sp.max_matches(max_matches);
+    sp.max_matches(max_matches).path_terminator(pterm);
     let mut printer = sp.build_no_color(vec![]);
     {
         let pstr = path.as_ref().map(|p| String::from_utf8_lossy(p).into_owned());
@@ -157,7 +158,7 @@ fn run_search(v: &Val) -> Val {
     let mut sums = vec![];
     for kind in [SummaryKind::Count, SummaryKind::PathWithMatch, SummaryKind::PathWithoutMatch] {
         let mut b = SummaryBuilder::new();
-        b.kind(kind.clone()).max_matches(max_matches).exclude_zero(true);
+        b.kind(kind.clone()).max_matches(max_matches).exclude_zero(true).path_terminator(pterm);
         let mut printer = b.build_no_color(vec![]);
         {
             let pstr = path.as_ref().map(|p| String::from_utf8_lossy(p).into_owned());
